@@ -45,10 +45,10 @@ def main():
             "name": "funsorlint",
             "path": "/verif/funsorlint",
             "serves_properties": sorted(claims),
-            "kind_free_text": "repository-specific static analyser (stdlib ast + networkx): module/name resolution, op/term/registry catalogue, statement CFG with exceptional edges, forward abstract interpretation (ownership, taint, op-role), per-property rule modules; no funsor code is imported or executed by a deciding step",
+            "kind_free_text": "repository-specific static analyser (stdlib ast + networkx): module/name resolution, op/term/registry catalogue, statement CFG with exceptional edges, forward abstract interpretation (ownership, taint, op-role, IEEE special values), path-sensitive symbolic execution of interning protocols, per-property rule modules; no funsor code is imported or executed by a deciding step",
         }],
         "checks": checks,
-        "notes": "Static analysis only. Exit 0 ok / 1 VIOLATION / 2 ANALYSIS-ERROR (analyser cannot do its job; never reported as a violation). /repo carries four unguarded 'fix:' commits (see KNOWN_FINDINGS.json); no hooks. tools/ holds development aids that are not part of any check.",
+        "notes": "Static analysis only. Exit 0 ok / 1 VIOLATION / 2 ANALYSIS-ERROR (analyser cannot do its job; never reported as a violation). /repo carries unguarded 'fix:' commits for the genuine defects the checks found (listed in KNOWN_FINDINGS.json); no hooks. tools/ holds development aids that are not part of any check.",
         "not_applicable": [{"property_id": k, "reason": v} for k, v in sorted(na.items())],
     }
     with open(os.path.join(V, "MANIFEST.json"), "w") as f:
